@@ -34,33 +34,34 @@ Proof.
   - now rewrite dimscheck_rejects_bad_modes.
 Qed.
 
-(* sparse constructor: exact on non-empty rectangular subscript arrays without negative entries *)
+(* sparse constructor: exact on non-empty rectangular subscript arrays (C19-N14 repaired: the lower bound is checked);
+   an array without rows skips every comparison, the value count included (C19-N16) *)
 Definition sptensor_ctor_stmt : Prop := forall s subs nvals, guard_sptensor_ctor s subs nvals = decide (pre_sptensor_ctor s subs nvals).
 Theorem sptensor_ctor_refuted : ~ sptensor_ctor_stmt.
-Proof. intros H. specialize (H [2; 3] [[0; -1]; [1; 1]] 2). vm_compute in H. discriminate. Qed.
+Proof. intros H. specialize (H [2; 3] [] 3). vm_compute in H. discriminate. Qed.
 
-Lemma sub_ok_upper s row : zlen row = ndim s -> (forall x, In x row -> 0 <= x) ->
-  sub_ok s row = forallb (fun p => fst p <? snd p) (combine row s).
+Lemma sub_ok_split (s row : vec) : zlen row = ndim s ->
+  sub_ok s row = forallb (fun x => 0 <=? x) row && forallb (fun p => fst p <? snd p) (combine row s).
 Proof.
-  intros Hl Hnn. unfold sub_ok. rewrite Hl, Z.eqb_refl. cbn [andb]. apply forallb_ext_in.
-  intros [x dd] Hin. cbn [fst snd]. unfold in_range. apply in_combine_l in Hin. specialize (Hnn x Hin).
-  destruct (Z.leb_spec 0 x); [reflexivity|lia].
+  intros Hl. unfold sub_ok. rewrite Hl, Z.eqb_refl. cbn [andb]. unfold ndim, zlen in Hl. apply Nat2Z.inj in Hl.
+  revert s Hl. induction row as [|x row IH]; intros [|d s] Hl; cbn in Hl; try discriminate; [reflexivity|].
+  cbn [combine forallb fst snd]. rewrite IH by congruence. unfold in_range.
+  destruct (0 <=? x), (x <? d), (forallb (fun x0 => 0 <=? x0) row); reflexivity.
 Qed.
 
 Theorem sptensor_ctor_partial s subs nvals :
   subs <> [] -> hd [] subs <> [] ->
   (forall row, In row subs -> zlen row = zlen (hd [] subs)) ->            (* a rectangular array *)
-  (forall row x, In row subs -> In x row -> 0 <= x) ->
   guard_sptensor_ctor s subs nvals = decide (pre_sptensor_ctor s subs nvals).
 Proof.
-  intros Hne Hc Hrect Hnn. apply decide_by. unfold guard_sptensor_ctor, pre_sptensor_ctor, pre_subs.
+  intros Hne Hc Hrect. apply decide_by. unfold guard_sptensor_ctor, pre_sptensor_ctor, pre_subs.
   assert (E1 : (zlen subs =? 0) = false) by (apply Z.eqb_neq; destruct subs; [congruence|unfold zlen; cbn; lia]).
   assert (E2 : (zlen (hd [] subs) =? 0) = false) by (apply Z.eqb_neq; destruct (hd [] subs); [congruence|unfold zlen; cbn; lia]).
   unfold vec in *. rewrite E1, E2. cbn [orb]. okb.
   destruct (Z.eqb_spec (zlen (hd [] subs)) (ndim s)) as [E|E]; cbn [andb].
-  - rewrite andb_comm. f_equal. symmetry. apply forallb_ext_in. intros row Hrow.
-    apply sub_ok_upper; [rewrite Hrect by auto; exact E|]. intros x Hx. eapply Hnn; eauto.
-  - rewrite andb_false_r. symmetry. apply andb_false_iff. left.
+  - rewrite andb_comm. f_equal. rewrite forallb_and. symmetry. apply forallb_ext_in. intros row Hrow.
+    apply sub_ok_split. rewrite Hrect by auto. exact E.
+  - rewrite !andb_false_r. symmetry. apply andb_false_iff. left.
     destruct subs as [|r0 rest]; [congruence|]. cbn [forallb hd] in *. unfold sub_ok at 1.
     destruct (Z.eqb_spec (zlen r0) (ndim s)); [contradiction|reflexivity].
 Qed.
